@@ -47,6 +47,30 @@ def run(seed, dense):
                 n_eval += 1
                 if got.shape != ref.shape or np.abs(got - ref).max() > 1e-10 * (1 + np.abs(ref).max()):
                     bad.append(('idwt1', wn, mode, N, Nc))
+    # ---- stationary transform: spec swt1 (dilated filters, periodic) vs pywt.swt
+    for wn in waves[:12] if not dense else waves:
+        w = pywt.Wavelet(wn)
+        L = w.dec_len
+        for J in (1, 2, 3):
+            for mlt in (1, 3):
+                N = mlt * 2 ** J * max(1, (L // 2 ** J))
+                if N < 2:
+                    continue
+                x = np.array([rnd.uniform(-1, 1) for _ in range(N)])
+                try:
+                    ref = pywt.swt(x, w, level=J, trim_approx=False)
+                except ValueError:
+                    continue
+                a = x
+                for j in range(1, J + 1):
+                    d = 2 ** (j - 1)
+                    lo = np.array([specs.swt1(bk, lambda q: a[q], N, lambda u: w.dec_lo[u], L, d)(i) for i in range(N)])
+                    hi = np.array([specs.swt1(bk, lambda q: a[q], N, lambda u: w.dec_hi[u], L, d)(i) for i in range(N)])
+                    cA, cD = ref[J - j]
+                    n_eval += 1
+                    if np.abs(lo - cA).max() > 1e-10 or np.abs(hi - cD).max() > 1e-10:
+                        bad.append(('swt1', wn, N, J, j))
+                    a = lo
     return n_eval, bad
 
 
